@@ -220,6 +220,20 @@ def bounced(ctx, cfg, peer):
             got.append((k, r.reply))
     workloads.reply_mix(ctx, cfg, rounds=1, on_reply=on_reply)
     for k, rep in got:
+        # what the bounced message *is* is decided by its content, not by the request that elicited it (a DNS query that
+        # is also an RFC 3489 STUN request is answered by the STUN responder)
+        pl0 = pkt.parse(rep).get("data")
+        if k in ("dns", "stun", "smb", "rpc", "http") and pl0:
+            if stun.is_stun_response(pl0):
+                k = "stun"
+            elif http.is_http_response(pl0):
+                k = "http"
+            elif smb.is_smb_response(pl0):
+                k = "smb"
+            elif len(pl0) >= 12 and (pl0[4:8] == b"\0\0\0\1" or pl0[8:12] == b"\0\0\0\1"):
+                k = "rpc"
+            elif len(pl0) >= 12 and pl0[2] & 0x80:
+                k = "dns"
         f = bounce(rep, cfg, peer)
         r = ctx.send(f)
         ctx.stats["bounced_" + k] += 1
